@@ -24,6 +24,7 @@ PY
       else
         git checkout --theirs -- "$f"; git add "$f"
       fi;;
+    evidence/*.json|seeded/*) git checkout --theirs -- "$f"; git add "$f";;
     *) echo "   UNRESOLVED CONFLICT in $f"; UNRES=1;;
   esac
 done
